@@ -145,6 +145,7 @@ type Unit struct {
 	rebinds       []string // clause locals bound by type after a rename, anchors and invariants found in inlined helpers (reported in the evidence)
 	globalAddr    map[string]string // addresses of package variables whose address was taken
 	newLoopAt     int      // 1 + position in the command stream of the first new loop without invariant
+	newAccAt      int      // ... of the first loop that carries a new accumulator (only inconclusive answers are undecided after it)
 	newLoops      []string
 	calleeStaleAt int      // 1 + position in the command stream of the first call whose postcondition could not be assumed
 	calleeStale   []string // postconditions of callees that could not be assumed because they no longer type-check
@@ -183,6 +184,10 @@ func (u *Unit) assume(guard, cond string) {
 
 func (u *Unit) oblige(name, kind string, tags []string, guard, cond, pos, clause string) *Obligation {
 	if cond == "true" || guard == "false" {
+		if kind == "assert" && cond == "true" && u.eng != nil {
+			// trivially true at this site - but the site exists: remembered for the deleted-anchor rule
+			u.eng.trivialAnchors = append(u.eng.trivialAnchors, name)
+		}
 		return nil
 	}
 	// stable unique names
